@@ -267,6 +267,42 @@ fn pick_block_positions(
     }
 }
 
+/// Error positions forming complete cosets of a multiplicative subgroup of GF(256)*: e | 255 positions whose
+/// polynomial degrees are d, d + 255/e, d + 2*255/e, ... - their locator polynomial is the binomial x^e + b
+/// (only two non-zero coefficients). Unions of two cosets give other sparse locators. Needs a block long enough.
+fn coset_positions(rng: &mut Rng, s: &SizeInfo, b: usize, max_errors: usize) -> Option<Vec<usize>> {
+    let pos = s.block_positions(b);
+    let nb = pos.len();
+    let mut out: Vec<usize> = Vec::new();
+    let n_cosets = if rng.chance(2, 3) { 1 } else { 2 };
+    for _ in 0..n_cosets {
+        let cands: Vec<usize> = [3usize, 5, 15, 17, 51]
+            .iter()
+            .copied()
+            .filter(|e| out.len() + *e <= max_errors && (*e - 1) * (255 / *e) < nb)
+            .collect();
+        if cands.is_empty() {
+            break;
+        }
+        let e = *rng.pick(&cands);
+        let stride = 255 / e;
+        let span = (e - 1) * stride;
+        let d0 = rng.range(0, (nb - 1 - span).min(stride - 1));
+        for i in 0..e {
+            let deg = d0 + i * stride;
+            let p = pos[nb - 1 - deg];
+            if !out.contains(&p) {
+                out.push(p);
+            }
+        }
+    }
+    if out.is_empty() {
+        None
+    } else {
+        Some(out)
+    }
+}
+
 /// Per-block error weights for a bounded-damage (C03) profile.
 fn bounded_weights(rng: &mut Rng, s: &SizeInfo) -> Vec<usize> {
     let t = s.t();
@@ -1549,6 +1585,21 @@ fn beyond_radius_faults(ctx: &Ctx, rng: &mut Rng, s: &SizeInfo, faults: &mut Vec
                 faults.push(Fault::new("cw_replace", Op::CwSet { pos: p as u32, val: rng.byte() }));
             }
         }
+        9 if rng.chance(1, 2) => {
+            // coset-structured damage beyond the radius
+            let b = rng.below(s.blocks);
+            if let Some(ps) = coset_positions(rng, s, b, s.block_len(b)) {
+                for p in ps {
+                    faults.push(Fault::new("cw_coset", Op::CwXor { pos: p as u32, mask: rng.nonzero_byte() }));
+                }
+                let extra = rng.range(0, s.t());
+                for p in pick_block_positions(rng, s, b, extra, Region::Both, PosPattern::Uniform) {
+                    faults.push(value_fault(rng, ValKind::Subst, None, p));
+                }
+            } else {
+                burst_faults(rng, s, None, faults)
+            }
+        }
         9 => burst_faults(rng, s, None, faults),
         10 => data_module_faults(ctx, rng, s, None, faults),
         11..=16 => {
@@ -1636,6 +1687,29 @@ fn gen_c03_faults(ctx: &Ctx, rng: &mut Rng, s: &SizeInfo, faults_out: &mut Vec<F
             weighted_cw_faults(rng, s, &w, &mut faults);
         }
         10 | 11 => burst_faults(rng, s, Some(s.t()), &mut faults),
+        11 if rng.chance(1, 2) => {
+            // sparse locator polynomials: complete cosets of a multiplicative subgroup (plus a few free errors)
+            let b = rng.below(s.blocks);
+            match coset_positions(rng, s, b, s.t()) {
+                Some(mut ps) => {
+                    let room = s.t() - ps.len();
+                    if room > 0 && rng.chance(1, 3) {
+                        let extra = rng.range(1, room);
+                        for p in pick_block_positions(rng, s, b, extra, Region::Both, PosPattern::Uniform) {
+                            if !ps.contains(&p) {
+                                ps.push(p);
+                            }
+                        }
+                    }
+                    let same = if rng.chance(1, 3) { Some(rng.nonzero_byte()) } else { None };
+                    for p in ps {
+                        let m = same.unwrap_or_else(|| rng.nonzero_byte());
+                        faults.push(Fault::new("cw_coset", Op::CwXor { pos: p as u32, mask: m }));
+                    }
+                }
+                None => burst_faults(rng, s, Some(s.t()), &mut faults),
+            }
+        }
         13 => {
             let b = rng.below(s.blocks);
             if !phantom_faults(ctx, rng, s, b, true, &mut faults) {
